@@ -97,7 +97,9 @@ P = {
          "component accepts only the release transition; over whole runs: outside OUTAGE every record is inactive and active records "
          "have start <= end in every reachable state and micro-state (C10_outage_records_*, SMP/Outages.v, no side condition). " + TIE),
  "C11": ("SM", "Theorems (Props/C11.v; SMP/Offers): every offered transport/machine transition passes validation and names a ready job "
-         "(offers_are_valid). Absence of deadlock is FALSE of the code and refuted by theorem inside the property's configuration "
+         "(offers_are_valid); over whole runs, for instances with unordered or capacity-one machine post-buffers, every offer of every "
+         "reachable result is valid in the state it is offered in (C11_every_offer_is_valid_in_every_run_flex, SMP/OffersValid.v). "
+         "Absence of deadlock is FALSE of the code and refuted by theorem inside the property's configuration "
          "class: C11_refuted (always-accept reaches a non-terminal state without offers; every further action raises, for every "
          "fuel) and C11_refuted_hang; both witnesses are replayed on the implementation on every run. The check classifies every "
          "dead end reached. " + TIE),
